@@ -11,6 +11,8 @@ import (
 	"math/rand"
 	"os"
 	"path/filepath"
+	"syscall"
+	"time"
 
 	"github.com/ErdemOzgen/blackdagger/internal/agent"
 	"github.com/ErdemOzgen/blackdagger/internal/client"
@@ -142,18 +144,33 @@ func AdmitAgentRecord(id int, deps [][]int, base string) Ev {
 		hist, _ := filepath.Glob(filepath.Join(dir, "data", "*", "*.dat"))
 		b, _ := os.ReadFile(marker)
 		return Ev{"kind": "agent", "n": len(deps), "deps": deps, "accepted": false, "err": "load: " + lerr.Error(),
-			"executed": len(b) > 0, "history": len(hist), "sockLeft": false}
+			"executed": len(b) > 0, "history": len(hist), "sockLeft": false, "hung": false}
 	}
 	ds := dsclient.NewDataStores(dags, filepath.Join(dir, "data"), filepath.Join(dir, "susp"), dsclient.DataStoreOptions{})
 	cli := client.New(ds, "/bin/false", dir, quietLogger)
 	req := fmt.Sprintf("adm-req-%d", id)
 	a := agent.New(req, d, quietLogger, filepath.Join(dir, "logs"), filepath.Join(dir, "logs", req+".log"), cli, ds, &agent.Options{})
-	err := a.Run(context.Background())
+	// a wrongly admitted cyclic graph never finishes: give the run a deadline, then stop it
+	errc := make(chan error, 1)
+	go func() { errc <- a.Run(context.Background()) }()
+	var err error
+	hung := false
+	select {
+	case err = <-errc:
+	case <-time.After(6 * time.Second):
+		hung = true
+		a.Signal(syscall.SIGTERM)
+		select {
+		case err = <-errc:
+		case <-time.After(10 * time.Second):
+		}
+		err = nil
+	}
 	b, _ := os.ReadFile(marker)
 	hist, _ := filepath.Glob(filepath.Join(dir, "data", "*", "*.dat"))
 	_, sockErr := os.Stat(d.SockAddr())
 	e := Ev{"kind": "agent", "n": len(deps), "deps": deps, "accepted": err == nil, "err": "", "executed": len(b) > 0,
-		"history": len(hist), "sockLeft": sockErr == nil}
+		"history": len(hist), "sockLeft": sockErr == nil, "hung": hung}
 	if err != nil {
 		e["err"] = err.Error()
 	}
